@@ -154,7 +154,10 @@ class Check:
             f'cd lean && lake build {module} && lake env lean '
             f'.audit/{self.pid}.lean   # #print axioms of every theorem')
         if r.returncode != 0:
-            self.proof_failure = r.stdout[-4000:]
+            errs = [l for l in r.stdout.splitlines()
+                    if l.startswith('error:') or ' error: ' in l]
+            self.proof_failure = ('\n'.join(errs[:12]) + '\n...\n'
+                                  + r.stdout[-2500:])
             if allow_fail:
                 return False
             # is it the property's own module or infrastructure?
